@@ -122,7 +122,9 @@ class PromiseType final : public PromiseTypeBase<V, E, Lazy, Shared> {
   }
 
   YACLIB_INLINE void Impl(InlineCore& caller) noexcept {
-    this->_executor = std::move(DownCast<BaseCore>(caller)._executor);
+    // Copy, not move: IntrusivePtr's move assignment swaps, which leaves a caller that is not a coroutine
+    // (a step that returned this Task) with our old executor instead of the one its chain inherits
+    this->_executor = DownCast<BaseCore>(caller)._executor;
     YACLIB_ASSERT(this->_executor != nullptr);
   }
   [[nodiscard]] InlineCore* Here(InlineCore& caller) noexcept final {
